@@ -71,6 +71,50 @@ func randCaseBlocks(r *rand.Rand, s string, maxBlock int) string {
 	return string(b)
 }
 
+// caseEdges writes s in one case except for a head, a tail or a short stretch in the other (cloning notation:
+// lower-case flanks around an upper-case insert, an appended lower-case tag or stop codon, one marked site).
+func caseEdges(r *rand.Rand, s string) string {
+	if len(s) == 0 {
+		return s
+	}
+	b := []byte(strings.ToUpper(s))
+	lo := func(from, to int) {
+		for j := from; j < to && j < len(b); j++ {
+			if b[j] >= 'A' && b[j] <= 'Z' {
+				b[j] += 32
+			}
+		}
+	}
+	switch r.Intn(5) {
+	case 0: // a short lower-case tail
+		lo(len(b)-1-r.Intn(min(9, len(b))), len(b))
+	case 1: // a lower-case head of any length, the rest upper case
+		lo(0, 1+r.Intn(len(b)))
+	case 2: // everything lower case except a tail
+		k := r.Intn(len(b))
+		lo(0, len(b)-k)
+	case 3: // one short lower-case stretch somewhere
+		at := r.Intn(len(b))
+		lo(at, at+1+r.Intn(12))
+	default: // upper-case insert between lower-case flanks
+		a := r.Intn(len(b))
+		c := a + r.Intn(len(b)-a)
+		lo(0, a)
+		lo(c, len(b))
+	}
+	if r.Intn(4) == 0 { // the same pattern with the cases exchanged
+		for j := range b {
+			switch {
+			case b[j] >= 'a' && b[j] <= 'z':
+				b[j] -= 32
+			case b[j] >= 'A' && b[j] <= 'Z':
+				b[j] += 32
+			}
+		}
+	}
+	return string(b)
+}
+
 func rotate(s string, k int) string {
 	if len(s) == 0 {
 		return s
